@@ -202,6 +202,12 @@ def mutants(a):
     caught = sum(1 for r in results if r[2].startswith("CAUGHT") or r[2].startswith("NOT-FLAGGED"))
     print("selftest-mutants: %d/%d caught (tier %s)" % (caught, len(results), tier))
     suffix = tier if len(os.environ.get("POTSIM_MUTANT_SEEDS", "").split(",")) < 2 else tier + "-multiseed"
-    with open(os.path.join(root, "mutants", "RESULTS-%s.json" % suffix), "w") as f:
-        json.dump([{"mutant": r[0], "property": r[1], "verdict": r[2], "detail": r[3]} for r in results], f, indent=1)
+    path = os.path.join(root, "mutants", "RESULTS-%s.json" % suffix)
+    new = [{"mutant": r[0], "property": r[1], "verdict": r[2], "detail": r[3]} for r in results]
+    if only and os.path.exists(path):
+        # a filtered run refreshes only its own entries
+        old = [x for x in json.load(open(path)) if x["mutant"] not in set(n["mutant"] for n in new)]
+        new = sorted(old + new, key=lambda x: x["mutant"])
+    with open(path, "w") as f:
+        json.dump(new, f, indent=1)
     return 0 if caught == len(results) else 1
